@@ -176,12 +176,23 @@ def run_tlc(work, module, cfg=None, env=None, workers=1, timeout=600, simulate=N
     return res
 
 
-def tlc_mc(work, module, cfg=None, workers=8, timeout=900, env=None, heap=None):
+def tlc_mc(work, module, cfg=None, workers=8, timeout=900, env=None, heap=None, coverage=False):
     """Exhaustive check of a bounded model of the specification.  A counter-example here is a
-    defect of the specification (a false lemma), i.e. a tooling error, never a verdict on the code."""
-    r = run_tlc(work, module, cfg or module + ".cfg", env=env, workers=workers, timeout=timeout, heap=heap)
+    defect of the specification (a false lemma), i.e. a tooling error, never a verdict on the code.
+    With coverage=True TLC reports how often every action fired; an action that never fired means the
+    properties were checked vacuously for it, which is also a tooling error."""
+    r = run_tlc(work, module, cfg or module + ".cfg", env=env, workers=workers, timeout=timeout, heap=heap,
+                extra=["-coverage", "1"] if coverage else None)
     if "No error has been found" not in r.out:
         raise ToolingError("model checking of %s did not succeed:\n%s" % (module, tail(r.out)))
+    if coverage:
+        last = {}
+        for m in re.finditer(r"<(\w+) line \d+, col \d+ to line \d+, col \d+ of module (\w+)>: (\d+):(\d+)", r.out):
+            last[(m.group(2), m.group(1))] = int(m.group(4))
+        dead = sorted(a for (mod, a), n in last.items() if n == 0 and a not in ("Init", "Next", "Finished", "Stutter"))
+        if dead:
+            raise ToolingError("vacuity: actions never taken in %s: %s" % (module, ", ".join(dead)))
+        log("coverage %-18s %d actions, all taken" % (module, len(last)))
     log("mc %-24s %8d states %9d generated  %.1fs" % (module, r.distinct, r.generated, r.wall))
     return r
 
